@@ -82,17 +82,28 @@ def search(pid, fl, b, tier, seed, binary=None):
         if binary is None:
             raise RuntimeError("replay crate does not build against the current tree: " + err)
     budget = "20000" if tier == "thorough" else "3000"
+    aspect = ASPECTS.get(pid)
+    env = dict(os.environ)
+    if aspect:
+        env["REPLAY_ASPECT"] = aspect
+    else:
+        env.pop("REPLAY_ASPECT", None)
     for mode in modes_for(fl.fid):
         if mode in ("cli", "clitable"):
             # the printers live in the binary crate: the failing input is a run of the real binary
             from . import clisweep
-            d, _, cerr = {"cli": clisweep.sweep, "clitable": clisweep.sweep_table}[mode](REPO, int(budget), seed)
+            if mode == "clitable":
+                d, _, cerr = clisweep.sweep_table(REPO, int(budget), seed, aspect=aspect)
+            else:
+                d, _, cerr = clisweep.sweep(REPO, int(budget), seed)
             if d is not None and d.get("case") is not None:
                 d["cmd"] = "the rsbdd binary built from /repo, run on this case (./check replay <file>)"
+                if aspect:
+                    d["aspect"] = aspect
                 return d
             continue
         try:
-            p = subprocess.run([binary, "search", mode, budget, str(seed)], capture_output=True, text=True, timeout=900 if tier == "thorough" else 240)
+            p = subprocess.run([binary, "search", mode, budget, str(seed)], capture_output=True, text=True, timeout=900 if tier == "thorough" else 240, env=env)
         except subprocess.TimeoutExpired:
             continue
         line = (p.stdout.strip().split("\n") or [""])[-1]
@@ -103,6 +114,8 @@ def search(pid, fl, b, tier, seed, binary=None):
                 continue
             if d.get("case") is not None:
                 d["cmd"] = f"replay case {d['mode']} <case>   (binary built from /verif/replay against /repo)"
+                if aspect:
+                    d["aspect"] = aspect
                 return d
     return None
 
@@ -117,8 +130,10 @@ def replay_file(path):
         return 0
     if fi.get("mode") in ("cli", "cliorder", "climodel", "clitable"):
         from . import clisweep
-        r, err = {"cli": clisweep.replay_case, "cliorder": clisweep.order_case, "climodel": clisweep.model_case,
-                  "clitable": clisweep.table_case}[fi["mode"]](REPO, fi["case"])
+        if fi["mode"] == "clitable":
+            r, err = clisweep.table_case(REPO, fi["case"], aspect=fi.get("aspect"))
+        else:
+            r, err = {"cli": clisweep.replay_case, "cliorder": clisweep.order_case, "climodel": clisweep.model_case}[fi["mode"]](REPO, fi["case"])
         print(f"mode=cli case={fi['case']}")
         if r is not None:
             print("REPRODUCED on the real binary:")
@@ -131,7 +146,10 @@ def replay_file(path):
     if binary is None:
         print("replay crate does not build against the current tree:", err)
         return 2
-    p = subprocess.run([binary, "case", fi["mode"], fi["case"]], capture_output=True, text=True, timeout=600)
+    env = dict(os.environ)
+    if fi.get("aspect"):
+        env["REPLAY_ASPECT"] = fi["aspect"]
+    p = subprocess.run([binary, "case", fi["mode"], fi["case"]], capture_output=True, text=True, timeout=600, env=env)
     line = (p.stdout.strip().split("\n") or [""])[-1]
     print(f"mode={fi['mode']} case={fi['case']}")
     if p.returncode == 1:
@@ -146,7 +164,7 @@ def replay_file(path):
 
 BOUNDS = {
     "lex": "tokenizer vs an independent reading of the lexical rules: all concatenations of <= 3 lexemes from a 40-lexeme alphabet (symbols, words, digits, quotes, braces, whitespace, stray and non-ASCII characters) plus seeded random strings of 4-11 lexemes",
-    "index": "column index of every free variable and meaning preservation under orderings: 8 formulas x 16 orderings (permutations, subsets, supersets, gaps, duplicates, API vectors with descending / gapped ids) plus seeded random formula/ordering pairs (positional and shuffled explicit ids)",
+    "index": "column index of every free variable and meaning preservation under orderings: 11 formulas x 20 orderings (permutations, subsets, supersets, gaps, duplicates, API vectors with descending / gapped ids, orderings that reverse a quantifier list) plus seeded random formula/ordering pairs (positional and shuffled explicit ids)",
     "formula": "tokenize -> parse -> free variables -> eval against an independent truth-table evaluator: corner-case list plus seeded random formulas of depth <= 3 over 4 names",
     "parse": "real parser vs an independent recursive-descent parser on real tokens: all token sequences of length <= 3 (4 in thorough) over 22 lexemes plus random and mutated sentences",
     "ops": "all pairs of the 256 functions over 3 variables (two index patterns, operands from the same and from a foreign environment) for the binary connectives; not; random triples for ite",
@@ -155,10 +173,20 @@ BOUNDS = {
 }
 
 
-def run_mode(binary, mode, budget, seed, timeout=600):
+# what a bounded stand-in run FOR a given property may report: a stand-in shared by several properties observes more than
+# any one of them states (e.g. `formula` compares whole truth tables), and a check must not demand more than its property
+ASPECTS = {"C12": "panic", "C09": "vars"}
+
+
+def run_mode(binary, mode, budget, seed, timeout=600, aspect=None):
     """returns (found dict | None, cases checked)"""
+    env = dict(os.environ)
+    if aspect:
+        env["REPLAY_ASPECT"] = aspect
+    else:
+        env.pop("REPLAY_ASPECT", None)
     try:
-        p = subprocess.run([binary, "search", mode, str(budget), str(seed)], capture_output=True, text=True, timeout=timeout)
+        p = subprocess.run([binary, "search", mode, str(budget), str(seed)], capture_output=True, text=True, timeout=timeout, env=env)
     except subprocess.TimeoutExpired:
         return None, 0
     line = (p.stdout.strip().split("\n") or [""])[-1]
@@ -167,5 +195,7 @@ def run_mode(binary, mode, budget, seed, timeout=600):
     except Exception:
         return None, 0
     if p.returncode == 1 and d.get("case") is not None:
+        if aspect:
+            d["aspect"] = aspect
         return d, 0
     return None, int(d.get("checked", 0))
